@@ -570,3 +570,207 @@ Proof.
     unfold is_slash. apply N.eqb_neq. intros ->. apply Hc2. now left. }
   unfold posix_join. rewrite Hx, Hpre, Hes. cbn [orb]. destruct loc; reflexivity.
 Qed.
+
+(* ------------------------------------------------------------------------------------------ stripext / addext *)
+Lemma last_dot_split_app t : forall a e, last_dot_split t = Some (a, e) -> t = a ++ e.
+Proof.
+  induction t as [|c t IH]; intros a e H; [discriminate H|].
+  cbn in H. destruct (last_dot_split t) as [[a' e']|].
+  - inversion H; subst. cbn. f_equal. now apply IH.
+  - destruct (N.eqb c c_dot); [|discriminate H]. inversion H. reflexivity.
+Qed.
+
+Lemma splitext_name_spec t : forall a e, splitext_name t = (a, e) ->
+  t = a ++ e /\ (a = t \/ all_dots a = false).
+Proof.
+  intros a e H. unfold splitext_name in H. destruct (last_dot_split t) as [[a' e']|] eqn:E.
+  - destruct (all_dots a') eqn:Ed; inversion H; subst.
+    + split; [now rewrite app_nil_r|now left].
+    + split; [now apply last_dot_split_app|now right].
+  - inversion H; subst. split; [now rewrite app_nil_r|now left].
+Qed.
+
+Lemma special_all_dots a : is_special a = true -> all_dots a = true.
+Proof. unfold is_special. rewrite !orb_true_iff, !str_eqb_eq. intros [[->| ->]| ->]; reflexivity. Qed.
+
+Lemma stem_normal t a e : normalc t -> t = a ++ e -> (a = t \/ all_dots a = false) -> normalc a.
+Proof.
+  intros [Hs [H1 H2]] Et Ha. subst t. split; [|split].
+  - destruct Ha as [Ha|Ha]; [now rewrite Ha|].
+    destruct (is_special a) eqn:E; [|reflexivity]. apply special_all_dots in E. congruence.
+  - intros Hin. apply H1. apply in_or_app. now left.
+  - intros Hin. apply H2. apply in_or_app. now left.
+Qed.
+
+Lemma stem_nodrive t a e : t = a ++ e -> nodrive [t] -> nodrive [a].
+Proof. intros -> H. destruct a as [|x [|y a]]; try exact I. exact H. Qed.
+
+Lemma splitext_render_snoc k init b : k <= 1 -> normal (init ++ [b]) ->
+  posix_splitext (render k (init ++ [b])) =
+  (dirpart k init ++ fst (splitext_name b), snd (splitext_name b)).
+Proof.
+  intros Hk Hn. unfold posix_splitext.
+  rewrite (dus_render_snoc k init b Hk Hn), rev_involutive, (basename_render_snoc k init b Hk Hn).
+  destruct (splitext_name b); reflexivity.
+Qed.
+
+Lemma splitext_render_nil k : k <= 1 -> posix_splitext (render k []) = (render k [], []).
+Proof. intros Hk. destruct k as [|[|k]]; [reflexivity|reflexivity|lia]. Qed.
+
+(* For every well-formed path: stripext succeeds, gives a well-formed path under the same root, and adding the
+   extension back returns the path exactly (all fields); stripext with a replacement is stripext followed by
+   addext; the extension contains no separator. *)
+Theorem stripext_addext p : wfp p ->
+  exists st, stripext p None = Some st /\ wfp st /\ p_root st = p_root p /\
+             addext st (ext p) = Some p /\ (forall r, stripext p (Some r) = addext st r) /\
+             ~ In c_slash (ext p).
+Proof.
+  intros W. assert (Hid := mk_idempotent p W). assert (Hn := wf_normal p W).
+  destruct (p_comps p) as [|c0 cs0] eqn:Ec.
+  - (* the root directory: nothing to strip *)
+    exists p. unfold stripext, addext, ext. rewrite (wfp_suffix p W), Ec, (splitext_render_nil _ (wf_le1 p W)).
+    cbn [fst snd]. rewrite !app_nil_r. rewrite (wfp_suffix p W), Ec in Hid.
+    split; [exact Hid|]. split; [exact W|]. split; [reflexivity|]. split; [exact Hid|]. split; [|intros []].
+    intros r. reflexivity.
+  - assert (Hne : c0 :: cs0 <> []) by discriminate.
+    destruct (exists_last Hne) as (init & b & Eib). rewrite Eib in *. clear Hne Eib c0 cs0.
+    destruct (splitext_name b) as [a e] eqn:Es.
+    destruct (splitext_name_spec b a e Es) as [Eb Ha].
+    assert (Hnb : normalc b) by apply (normal_last_noslash _ _ Hn).
+    assert (Hna : normalc a) by apply (stem_normal b a e Hnb Eb Ha).
+    assert (Hni : normal init) by (apply normal_app in Hn; tauto).
+    assert (Hnia : normal (init ++ [a])) by (apply normal_app; split; [exact Hni|constructor; [exact Hna|constructor]]).
+    assert (Hsx : posix_splitext (suffix_str p) = (dirpart (p_slashes p) init ++ a, e)).
+    { rewrite (wfp_suffix p W), Ec, (splitext_render_snoc _ _ _ (wf_le1 p W) Hn), Es. reflexivity. }
+    assert (Hnd : p_slashes p = 0 -> nodrive (init ++ [a])).
+    { intros Hk. assert (N := wf_nodrive p W Hk). rewrite Ec in N. destruct init as [|c init]; [|exact N].
+      apply (stem_nodrive b a e Eb N). }
+    assert (Hs := wf_slashes p W).
+    assert (Er : (if Nat.ltb 0 (p_slashes p) then Absolute else p_root p) = p_root p).
+    { destruct (Nat.ltb 0 (p_slashes p)); [|reflexivity]. symmetry in Hs. now apply root_eqb_eq in Hs. }
+    assert (Hr0 : p_slashes p = 0 -> root_eqb (p_root p) Absolute = false).
+    { intros Hk. rewrite Hk in Hs. cbn in Hs. now rewrite <- Hs. }
+    set (st := {| p_root := p_root p; p_drive := []; p_slashes := p_slashes p; p_comps := init ++ [a];
+                  p_dir := p_dir p; p_destdir := p_destdir p |}).
+    assert (Hmk : forall x, mk ((dirpart (p_slashes p) init ++ a) ++ x) (RRoot (p_root p)) (Some (p_destdir p)) (Some (p_dir p))
+                            = mk (render (p_slashes p) (init ++ [(a ++ x : str)])) (RRoot (p_root p)) (Some (p_destdir p)) (Some (p_dir p))).
+    { intros x. rewrite render_snoc, app_assoc. reflexivity. }
+    assert (Hst : stripext p None = Some st).
+    { unfold stripext. rewrite Hsx. cbn [fst]. rewrite Hmk, app_nil_r.
+      rewrite (mk_render (p_root p) (p_slashes p) (init ++ [a]) (Some (p_destdir p)) (Some (p_dir p))
+                 (wf_le1 p W) Hnia Hnd Hr0 (wfp_dd_ok p W)).
+      - rewrite Er. unfold st. f_equal. f_equal.
+        + destruct (p_dir p); [reflexivity|]. destruct init; reflexivity.
+        + now destruct (p_destdir p).
+      - intros _ E. apply app_eq_nil in E. destruct E as [_ E]. discriminate E. }
+    assert (Hsst : suffix_str st = dirpart (p_slashes p) init ++ a).
+    { unfold suffix_str, st. cbn [p_drive p_slashes p_comps app]. apply render_snoc. }
+    exists st. split; [exact Hst|]. split; [|split; [reflexivity|split; [|split]]].
+    + apply wfp_intro; [apply (wf_le1 p W)|exact Hnia|exact Hnd|exact Hs| |apply (wf_destdir p W)].
+      intros E. apply app_eq_nil in E. destruct E as [_ E]. discriminate E.
+    + unfold addext, ext. rewrite Hsx, Hsst. cbn [snd p_root p_destdir p_dir st].
+      rewrite Hmk, <- Eb, <- Ec, <- (wfp_suffix p W). exact Hid.
+    + intros r. unfold stripext, addext. rewrite Hsx, Hsst. reflexivity.
+    + unfold ext. rewrite Hsx. cbn [snd]. intros Hin. destruct Hnb as [_ [Hb _]]. apply Hb. rewrite Eb.
+      apply in_or_app. now right.
+Qed.
+
+(* ------------------------------------------------------------------------------------------ realize / string *)
+Lemma localize_app fl a b : localize fl (a ++ b) = localize fl a ++ localize fl b.
+Proof. destruct fl; [reflexivity|apply map_app]. Qed.
+
+(* localisation commutes with realisation: the localised result is the localisation of the plain result *)
+Theorem realize_localize fl vars dv ex vsep p :
+  realize fl vars dv ex vsep true p = localize fl (realize fl vars dv ex vsep false p).
+Proof.
+  unfold realize.
+  destruct (if p_destdir p then _ else _) as [r|]; [|reflexivity].
+  destruct (is_nil (suffix_str p)); [reflexivity|]. now rewrite !localize_app.
+Qed.
+
+Lemma realize_posix_loc vars dv ex vsep loc p :
+  realize Posix vars dv ex vsep loc p = realize Posix vars dv ex vsep false p.
+Proof. destruct loc; [|reflexivity]. rewrite realize_localize. reflexivity. Qed.
+
+Lemma posix_join_rel base s x r : is_nil base = false -> ends_with_slash base = false ->
+  s = x :: r -> is_slash x = false -> posix_join base s = base ++ c_slash :: s.
+Proof. intros Hb He -> Hx. unfold posix_join. now rewrite Hx, Hb, He. Qed.
+
+Lemma suffix_rel_head p : wfp p -> root_eqb (p_root p) Absolute = false -> is_nil (suffix_str p) = false ->
+  exists x r, suffix_str p = x :: r /\ is_slash x = false.
+Proof.
+  intros W Ha Hs. rewrite (wfp_suffix p W), (wfp_slashes_rel p W Ha) in *.
+  destruct (p_comps p) as [|c cs] eqn:Ec; [discriminate Hs|].
+  assert (Hn := wf_normal p W). rewrite Ec in Hn. exact (join_cons_shape c cs Hn).
+Qed.
+
+(* the DESTDIR prefix realize puts in front: only for destdir-flagged paths, only when the variable is defined *)
+Definition destdir_prefix (dv : option str) (p : path) : str :=
+  if p_destdir p then match dv with Some d => d | None => [] end else [].
+
+(* A well-formed path under a non-absolute root whose variable has the non-empty value base (not ending in a
+   separator) is realised as the ordinary join of base and the suffix (base alone for the root directory itself),
+   preceded by the DESTDIR value when it applies; string() with the same value gives the same text. *)
+Theorem realize_join vars dv ex loc p base :
+  wfp p -> root_eqb (p_root p) Absolute = false -> vars (p_root p) = Some base ->
+  is_nil base = false -> ends_with_slash base = false ->
+  realize Posix vars dv ex true loc p =
+  destdir_prefix dv p ++ (if is_nil (suffix_str p) then base else posix_join base (suffix_str p)).
+Proof.
+  intros W Ha Hv Hb He. rewrite (realize_posix_loc vars dv ex true loc p).
+  unfold realize, destdir_prefix. rewrite Ha, Hv.
+  destruct (is_nil (suffix_str p)) eqn:Hs.
+  - destruct (p_destdir p); [destruct dv|]; reflexivity.
+  - destruct (suffix_rel_head p W Ha Hs) as (x & r & Es & Hx).
+    rewrite (posix_join_rel base _ x r Hb He Es Hx).
+    destruct (p_destdir p); [destruct dv|]; cbn [localize app]; try reflexivity.
+    now rewrite <- app_assoc.
+Qed.
+
+(* string() with the same string value, for either flavour: the localised join *)
+Theorem string_join fl vars p base :
+  wfp p -> root_eqb (p_root p) Absolute = false -> vars (p_root p) = VStr base ->
+  is_nil base = false -> ends_with_slash base = false ->
+  path_string fl vars p =
+  Some (localize fl (if is_nil (suffix_str p) then base else posix_join base (suffix_str p))).
+Proof.
+  intros W Ha Hv Hb He. unfold path_string. cbn [string_go]. rewrite Ha, Hv.
+  destruct (is_nil (suffix_str p)) eqn:Hs; [now rewrite app_nil_r|].
+  destruct (suffix_rel_head p W Ha Hs) as (x & r & Es & Hx).
+  rewrite (posix_join_rel base _ x r Hb He Es Hx). now rewrite app_nil_r, localize_app.
+Qed.
+
+(* absolute paths: the suffix itself, preceded by the DESTDIR value when it applies; never a ./ prefix *)
+Theorem realize_abs vars dv ex vsep loc p :
+  wfp p -> root_eqb (p_root p) Absolute = true ->
+  realize Posix vars dv ex vsep loc p = destdir_prefix dv p ++ suffix_str p.
+Proof.
+  intros W Ha. rewrite (realize_posix_loc vars dv ex vsep loc p).
+  unfold realize, destdir_prefix. rewrite Ha.
+  assert (Es : suffix_str p = c_slash :: join_on c_slash (p_comps p)).
+  { rewrite (wfp_suffix p W), (wfp_slashes_abs p W Ha). reflexivity. }
+  rewrite Es. cbn [has_slash existsb is_nil]. change (is_slash c_slash) with true. cbn [orb negb andb]. rewrite andb_false_r.
+  destruct (p_destdir p); [destruct dv|]; reflexivity.
+Qed.
+
+(* the executable form: a path whose root variable has no value is written with a leading ./ exactly when its
+   suffix contains no separator (so that the shell does not search PATH for it) *)
+Theorem realize_executable vars dv loc p :
+  wfp p -> root_eqb (p_root p) Absolute = false -> vars (p_root p) = None ->
+  (p_destdir p = true -> dv = None) ->
+  realize Posix vars dv true true loc p =
+  if has_slash (suffix_str p) then suffix_str p
+  else if is_nil (suffix_str p) then dot else posix_join dot (suffix_str p).
+Proof.
+  intros W Ha Hv Hd. rewrite (realize_posix_loc vars dv true true loc p).
+  unfold realize. rewrite Ha, Hv. cbn [andb].
+  assert (Hdv : p_destdir p = false \/ dv = None) by (destruct (p_destdir p); [right; now apply Hd|now left]).
+  destruct (has_slash (suffix_str p)) eqn:Hh; cbn [negb].
+  - assert (Hs : is_nil (suffix_str p) = false) by (destruct (suffix_str p); [discriminate Hh|reflexivity]).
+    unfold or_dot. rewrite Hs. destruct Hdv as [-> | ->]; [|destruct (p_destdir p)]; reflexivity.
+  - destruct (is_nil (suffix_str p)) eqn:Hs.
+    + destruct Hdv as [-> | ->]; [|destruct (p_destdir p)]; reflexivity.
+    + destruct (suffix_rel_head p W Ha Hs) as (x & r & Es & Hx).
+      rewrite (posix_join_rel dot _ x r eq_refl eq_refl Es Hx).
+      destruct Hdv as [-> | ->]; [|destruct (p_destdir p)]; reflexivity.
+Qed.
